@@ -256,7 +256,7 @@ func splitPlus(s string) []string {
 
 // C19: all-or-nothing emission at capacity; nil-target emitters track equally.
 func C19(r *vf.Run) {
-	r.Rule = "generated histories replayed at every capacity from 0 to the program size (thorough) or at capacities 0-3 bytes short of every call boundary (quick): a call fits iff Len+size <= Cap; a call that does not fit must be refused leaving Bytes(), the target buffer, Len, PC and labels unchanged, a call that fits must be accepted; a nil-target emitter runs in lockstep with a roomy one on PC, GetLabel and Flags; a cell is (kind of refused call, bytes short) or nil-target call kind"
+	r.Rule = "generated histories (a third of them re-basing with SetBase in mid-stream) replayed at every capacity from 0 to the program size (thorough) or at capacities 0-3 bytes short of every call boundary (quick): a call fits iff Len+size <= Cap; a call that does not fit must be refused leaving Bytes(), the target buffer, Len, PC and labels unchanged, a call that fits must be accepted; a nil-target emitter runs in lockstep with a roomy one on PC, GetLabel and Flags; a cell is (kind of refused call, bytes short) or nil-target call kind"
 	r.Assume = []string{"tracked flags and listing lines after a refused call are not among the observables the statement enumerates"}
 	if r.Phase("capacity") {
 		chunks := r.N(32, 1600)
@@ -265,7 +265,7 @@ func C19(r *vf.Run) {
 			cells := map[string]int64{}
 			for k := 0; k < 24 && !r.TooMany(); k++ {
 				listing := g.Intn(3) == 0
-				calls, _, _ := genHistory(g, histOpts{maxCalls: 60, listing: listing, dataBlocks: g.Intn(3) == 0, withRefs: true, withDup: g.Intn(5) == 0})
+				calls, _, _ := genHistory(g, histOpts{maxCalls: 60, listing: listing, dataBlocks: g.Intn(3) == 0, withRefs: true, withDup: g.Intn(5) == 0, rebase: g.Intn(3) == 0})
 				names := labelNames(calls)
 				hs := func() []string { return histStrings(calls) }
 				// program size and call boundaries from the shadow
@@ -376,7 +376,7 @@ func C19(r *vf.Run) {
 			cells := map[string]int64{}
 			for k := 0; k < 100 && !r.TooMany(); k++ {
 				listing := g.Intn(3) == 0
-				calls, _, _ := genHistory(g, histOpts{maxCalls: 150, listing: listing, dataBlocks: g.Intn(3) == 0, withRefs: true, withDup: g.Intn(4) == 0})
+				calls, _, _ := genHistory(g, histOpts{maxCalls: 150, listing: listing, dataBlocks: g.Intn(3) == 0, withRefs: true, withDup: g.Intn(4) == 0, rebase: g.Intn(3) == 0})
 				names := labelNames(calls)
 				real := asm.NewEmitter(make([]byte, 16384), listing)
 				dry := asm.NewEmitter(nil, listing)
